@@ -25,6 +25,9 @@ vars == <<pool, out, hist>>
 Ops == 1..NOps
 Fresh == [i \in 1..NObjs |-> 0]
 
+\* Init is also the state of a NEW INTERPRETER (module-level caches empty): the replay executes every history of length 1, and
+\* all ordered pairs of the operations that read those caches, in a new interpreter each (harness/fresh.py), besides the
+\* histories run on fresh workspaces of one long-lived process
 Init == pool = Fresh /\ out = 0 /\ hist = <<>>
 
 \* the answer is identified with 0 = "the answer on a fresh workspace" (see Trace_C12 for how it is logged)
